@@ -15,7 +15,7 @@
                               closing bracket, @, a constant, ° / rad, a superscript, !), the input is rejected (Err) *)
 From Coq Require Import List NArith ZArith Bool.
 From SC Require Import Base.Res Base.F64 Base.Dec Base.Num Base.Oracle Lang.Syntax Lang.Parser Gen.Tables
-  Spec.Surface Proofs.Grammar Proofs.Subst Proofs.Juxt Proofs.Adjacent.
+  Eval.Run Spec.Surface Proofs.Grammar Proofs.Subst Proofs.Juxt Proofs.Adjacent.
 Import ListNotations.
 
 Theorem C12_f64_juxt_is_product :
@@ -199,3 +199,19 @@ Example C12_token_classes :
     forallb (ender pt_f64) [TNum v; TK KRightParen; TK KRightFloor; TK KRightCeiling; TK KAns; TK KPi; TK KDegToRad; TSup v; TK KExclamationMark] = true /\
     forallb (fun t => negb (quiet pt_f64 t)) [TNum v; TK KRightParen; TK KExclamationMark; TK KAdd] = true.
 Proof. intros. repeat split; vm_compute; reflexivity. Qed.
+
+(** through the public entry points: whatever the evaluator does afterwards, an input whose token sequence contains a
+    forbidden adjacency is an error of the call (generic in the tables; the five instances are the five evaluators) *)
+Theorem C12_public_rejection :
+  forall V (LT : Lexer.lextab) (conv : Lexer.lit -> option V) (PT : ptab V) (ev : node V -> res V) s p ts x y,
+    adj_tab_ok PT = true -> adj_tab_ok2 PT = true -> pt_infix PT KExclamationMark = None -> pt_open PT KExclamationMark = None ->
+    tokens_of LT conv s = Some ts -> adj x y ts ->
+    (quiet PT x = true /\ trig PT y = true) \/ (ender PT x = true /\ atom PT y = true) ->
+    run LT conv PT ev s p = Err.
+Proof.
+  intros V LT conv PT ev s p ts x y T1 T2 NB NO Et A H. unfold run, ast_of. rewrite Et.
+  assert (E : parse PT p ts = Err).
+  { destruct H as [[Q Tr]|[En At]]; [eapply quiet_then_trigger_rejected; eauto|eapply ender_then_atom_rejected; eauto]. }
+  rewrite E. reflexivity.
+Qed.
+Print Assumptions C12_public_rejection.
